@@ -394,6 +394,8 @@ def run(M, rep, tier, only=None):
         rep.check(R5, key, bad is None and nl > 0 and nu > 0, bad[1] if bad else "required mechanism not found",
                   site=s.file + ":%d" % s.node.lineno, detail=describe_path(bad[0]) if bad else None)
     # position->index functions must see what the accessors report (linked values when linked)
+    actx = Ctx(M, sig_mode="full", coarse=False)
+    actx.cfg.sig_keep = lambda e: e.kind in ("layer", "raw")
     for cn, name, key, accessor in (("SetDimension", "index_of", "labels", "SetDimension.labels"),
                                     ("SetDimension", "range_indices", "labels", "SetDimension.labels"),
                                     ("RangeDimension", "index_of", "ticks", "RangeDimension.ticks"),
@@ -407,7 +409,7 @@ def run(M, rep, tier, only=None):
         bad = None
         nread = 0
         try:
-            paths = nctx.paths(f, cn, max_paths=20000)
+            paths = actx.paths(f, cn, max_paths=20000)
         except Exception as e:
             if type(e).__name__ != "Budget":
                 raise
